@@ -401,7 +401,7 @@ def check_c02(res, tier, replay):
 def check_c04(res, tier, replay):
     rng = random.Random(vlib.seed() + 4)
     vlib.apply_obligations(res, 'C04')
-    base = replay_cases(replay) if replay else gen_cases(rng, tier, per=(12 if tier == 'quick' else 60))
+    base = replay_cases(replay) if replay else gen_cases(rng, tier, per=(12 if tier == 'quick' else 150))
     stats = {'evaluations': 0, 'checked': 0, 'mism': 0, 'bad': 0, 'cells': set(), 'samples': []}
     c04_pass(res, rng, tier, base, stats)
     if LAST_MISMATCH_COMPONENTS and not replay:
@@ -614,7 +614,7 @@ def check_c15(res, tier, replay):
     vlib.apply_obligations(res, 'C15')
     findings = load_findings('C15')
     names = list(RANGE) + list(BANDS) + ['MovingMax', 'MovingMin']
-    per = 24 if tier == 'quick' else 200
+    per = 24 if tier == 'quick' else 500
     cases = replay_cases(replay) if replay else [w for w, _ in witness_cases('C15')] + c15_cases(rng, tier, names, per)
     stats = {'checked': 0, 'exempt': 0, 'bad': 0, 'not_ok': 0, 'cells': set(), 'known': collections.defaultdict(int)}
     lines, go, model = run_both(cases)
@@ -683,7 +683,7 @@ def check_c18(res, tier, replay):
     rng = random.Random(vlib.seed() + 18)
     vlib.apply_obligations(res, 'C18')
     findings = load_findings('C18')
-    base = replay_cases(replay) if replay else [w for w, _ in witness_cases('C18')] + gen_cases(rng, tier, per=(8 if tier == 'quick' else 60))
+    base = replay_cases(replay) if replay else [w for w, _ in witness_cases('C18')] + gen_cases(rng, tier, per=(8 if tier == 'quick' else 150))
     derived = []
     wfactors = {} if replay else {i: (f['witness'].get('price_factor', 2.0), f['witness'].get('volume_factor', 1.0))
                                    for i, (w, f) in enumerate(witness_cases('C18'))}
